@@ -851,7 +851,7 @@ def parallel_stage(c):
   those fill values: every returned point must still be a point of the search space."""
   E = env()
   jax, jnp = E['jax'], E['jnp']
-  plans = [('eagle', 3), ('random', 5)] if c.tier == 'quick' else [('eagle', 3), ('eagle', 5), ('eagle', 4), ('random', 3), ('random', 5)]
+  plans = [('eagle', 3)] if c.tier == 'quick' else [('eagle', 3), ('eagle', 5), ('eagle', 4), ('random', 3), ('random', 5)]
   for strategy, n_prior in plans:
     evals = eagle_pool(3, 3, 4) + 8 if strategy == 'eagle' else 16
     cfg = Cfg(strategy, 3, [3, 4, 2], 'pow2', 4, 3, evals, n_prior, 'n_parallel=2,priors=%d' % n_prior)
